@@ -38,6 +38,36 @@ theorem refuses_any_tilted_field (one : K) (fs : List (Fld K)) (ntilt : List Int
 theorem untilted_not_refused (ntilt : List Int) (h : ∀ n ∈ ntilt, n = 0) : Gen.hasTilt ntilt = false :=
   hasTilt_false_of_all_zero ntilt h
 
+/-- **The call on a wavefront of ANY plane type refuses tilt first**: also a wavefront that has met no pupil/image plane (type
+`none`, e.g. `Wavefront(wl, tilt=…)` through a plain `Plane`) is refused as tilted (NotImplementedError), the tilt guard
+precedes the plane-type guard in the regenerated guard table `Gen.codePropagateFft` -/
+theorem call_refuses_tilted_any_type (w : Gen.WType) (one : K) (fs : List (Fld K)) (W0 W1 : Int) (dx0 dx1 du0 du1 wl z : R) (os : Int)
+    (shape : Option (Int × Int)) (scratch : Option (Arr K)) :
+    propagateFftCall w one fs true W0 W1 dx0 dx1 du0 du1 wl z os shape scratch = FftCallOut.refusedBy .notImplementedError := by
+  cases w <;> rfl
+
+/-- **No outcome of the call carries a field of a tilted wavefront**: whatever the plane type, shape and scratch, if the call
+returns a propagated field then no field of the wavefront carried tilt -/
+theorem call_result_implies_untilted (w t : Gen.WType) (one : K) (fs : List (Fld K)) (ht : Bool) (W0 W1 : Int)
+    (dx0 dx1 du0 du1 wl z : R) (os : Int) (shape : Option (Int × Int)) (scratch : Option (Arr K)) (lam : R) (S0 S1 : Int)
+    (so : Int × Int) (g : Fld K)
+    (h : propagateFftCall w one fs ht W0 W1 dx0 dx1 du0 du1 wl z os shape scratch = FftCallOut.done t (FftOut.ok lam S0 S1 so g)) :
+    ht = false := by
+  cases ht
+  · rfl
+  · rw [call_refuses_tilted_any_type] at h; cases h
+
+/-- **An untilted wavefront without a plane type is refused (TypeError), never propagated; on a pupil / image wavefront the
+call IS the body `propagateFft`** every other theorem of this file is about, with the plane type flipped -/
+theorem call_untilted (w : Gen.WType) (one : K) (fs : List (Fld K)) (W0 W1 : Int) (dx0 dx1 du0 du1 wl z : R) (os : Int)
+    (shape : Option (Int × Int)) (scratch : Option (Arr K)) :
+    propagateFftCall w one fs false W0 W1 dx0 dx1 du0 du1 wl z os shape scratch =
+      match w with
+      | .none => FftCallOut.refusedBy .typeError
+      | .pupil => FftCallOut.done .image (propagateFft one fs false W0 W1 dx0 dx1 du0 du1 wl z os shape scratch)
+      | .image => FftCallOut.done .pupil (propagateFft one fs false W0 W1 dx0 dx1 du0 du1 wl z os shape scratch) := by
+  cases w <;> rfl
+
 /-- **A scratch buffer of exactly the advertised `scratch_shape` (= `fft_shape`) is sufficient**, and so is any larger
 one: a call that is accepted without scratch is accepted with it -/
 theorem scratch_shape_sufficient (one : K) (fs : List (Fld K)) (W0 W1 : Int) (dx0 dx1 du0 du1 wl z : R) (os : Int)
